@@ -32,6 +32,8 @@ class SimTransport(asyncio.Transport):
         self._conn = conn
         self._closing = False
         self._conn_lost = 0
+        self._pending = []
+        self._flush_scheduled = False
 
     def get_extra_info(self, name, default=None):
         if name == "peername":
@@ -52,7 +54,25 @@ class SimTransport(asyncio.Transport):
             self._conn_lost += 1
             self._conn.net.stats["write_after_lost"] += 1
             return
+        bp = self._conn.net.backpressure
+        if bp:
+            # socket send buffer full: like the selector transport, keep a *reference* to the caller's buffer
+            # (no copy) and flush it a little later - a caller that re-uses the buffer corrupts the queued data
+            self._pending.append(data if isinstance(data, bytes) else memoryview(data))
+            self._conn.net.stats["write_buffered_by_backpressure"] += 1
+            if not self._flush_scheduled:
+                self._flush_scheduled = True
+                self._conn.net.loop.call_later(bp, self._flush_pending)
+            return
         self._conn._client_wrote(bytes(data))
+
+    def _flush_pending(self):
+        self._flush_scheduled = False
+        pending, self._pending = self._pending, []
+        if self._conn_lost:
+            return
+        for d in pending:
+            self._conn._client_wrote(bytes(d))
 
     def close(self):
         if self._closing:
@@ -302,6 +322,7 @@ class SimNet:
         self.endpoints = []
         self.connect_attempts = []   # [(time, host, port, outcome)]
         self.stats = Counter()
+        self.backpressure = 0        # > 0: client writes are buffered by reference and flushed after that many seconds
         self.protocol_exceptions = []
         self._tracer = tracer
 
